@@ -155,3 +155,8 @@ FROM orders AS o
 INNER JOIN customers AS c
     ON o.customer_id = c.id
 WHERE c.name IS NOT NULL
+-- ----
+SELECT
+    tbl.a,
+    b
+FROM tbl
